@@ -30,6 +30,9 @@ enum Case {
         msg: usize,
         seed: String,
     },
+    /// one large session: n participants, the LAST `signers` of them sign (identifiers above 255,
+    /// hundreds of commitments in the package)
+    Large { suite: String, n: u16, t: u16, signers: u16, seed: String },
     /// tiny field: all keys x coefficient vectors for one (ids, t, S), seeded nonces
     TinyKeys { q: u64, ids: Vec<u64>, t: u16, signers: u32 },
     /// tiny field: every nonce 4-tuple for |S| = 2, seeded keys
@@ -121,6 +124,11 @@ impl Prop for C01 {
                 }
             }
         }
+        for suite in REAL_SUITES {
+            let (n, k) = if suite == "ed448" { (tier.pick(150u16, 300u16), tier.pick(90u16, 130u16)) } else { (300u16, tier.pick(130u16, 260u16)) };
+            out.push(serde_json::to_value(Case::Large { suite: suite.to_string(), n, t: 2, signers: k, seed: format!("s{seed}") }).unwrap());
+            out.push(serde_json::to_value(Case::Large { suite: suite.to_string(), n: k, t: k, signers: k, seed: format!("s{seed}") }).unwrap());
+        }
         // tiny layers
         for q in [7u64, 11] {
             let nmax = tier.pick(3usize, 4usize);
@@ -168,6 +176,7 @@ impl Prop for C01 {
         let c: Case = serde_json::from_value(case.clone()).expect("case");
         match &c {
             Case::Real { suite, .. } => with_suite!(suite.as_str(), run_real, &c),
+            Case::Large { suite, .. } => with_suite!(suite.as_str(), run_large, &c),
             Case::TinyKeys { q, .. } | Case::TinyNonces { q, .. } => match q {
                 7 => run_tiny::<7>(&c),
                 11 => run_tiny::<11>(&c),
@@ -205,6 +214,24 @@ fn run_real<C: Suite>(c: &Case) -> Outcome {
     let s = pick::<C>(&grp.ids, *signers);
     let m = message(*msg);
     session_check::<C>(&mut o, &tag, &grp.kps, &grp.pkp, &s, &m, &format!("{seed}:{signers}:{msg}"));
+    o
+}
+
+fn run_large<C: Suite>(c: &Case) -> Outcome {
+    let mut o = Outcome::new();
+    let Case::Large { n, t, signers, seed, .. } = c else { unreachable!() };
+    let tag = format!("C01/{}", C::name());
+    let grp = match make_group::<C>(KeySrc::Dealer, *n, *t, IdKind::Seq, seed) {
+        Ok(g) => g,
+        Err(e) => {
+            o.eval(false);
+            o.fail(format!("{tag}/keygen-failed/large"), format!("n={n} t={t}: {e}"));
+            return o;
+        }
+    };
+    let s: Vec<_> = grp.ids.iter().rev().take(*signers as usize).rev().copied().collect();
+    session_check::<C>(&mut o, &format!("{tag}/large"), &grp.kps, &grp.pkp, &s, &message(2), &format!("{seed}:large"));
+    o.count("large_sessions", 1);
     o
 }
 
